@@ -196,6 +196,51 @@ func rulesC17(e *Engine, r *Report) {
 		r.Min("R17.4", "`unchanged` returns of Sync", n, 1)
 	}
 
+	// ---------------------------------------------------------------- R17.6
+	r.Rule("R17.6", "only hashed, cached files leave the scan: scan() returns the whole batch only when every file of it got a hash, otherwise a file is appended to the result only under a non-empty hash; every file of the batch is added to the cache (or removed from it when it vanished) before the result is returned; the hash workers write the hash of the file they were given (R01.11)")
+	if fn := needFn(e, r, "R17.6", "client.(*Broker).scan"); fn != nil {
+		n := 0
+		seen := map[ssa.Value]bool{}
+		var walk func(v ssa.Value, pred *ssa.BasicBlock, blk *ssa.BasicBlock)
+		walk = func(v ssa.Value, pred *ssa.BasicBlock, blk *ssa.BasicBlock) {
+			if seen[v] {
+				return
+			}
+			seen[v] = true
+			switch x := v.(type) {
+			case *ssa.Phi:
+				for i, ed := range x.Edges {
+					walk(ed, x.Block().Preds[i], x.Block())
+				}
+			case *ssa.Const:
+			case *ssa.Call:
+				if strings.HasPrefix(e.Canon(x), "builtin(append)(") {
+					n++
+					conds := e.domConds(x.Block())
+					r.Check(hasStr(conds, `(invoke(sts.Hashed.GetHash)(§) != "")`), "R17.6", "client.(*Broker).scan: a file is appended to the result only with a hash", e.InstrPos(x),
+						"a file without a hash is queued for sending (it would be announced with an empty hash and fail validation for ever)", 1, conds...)
+					walk(x.Call.Args[0], nil, nil)
+				}
+			default:
+				if e.Canon(v) == "var(wrapped)" && pred != nil {
+					n++
+					conds := e.domConds(pred)
+					if t, ok := pred.Instrs[len(pred.Instrs)-1].(*ssa.If); ok {
+						conds = append(conds, e.CondStr(t.Cond, pred.Succs[0] == blk))
+					}
+					r.Check(hasStr(conds, "(§#0 == builtin(len)(var(wrapped)))") || hasStr(conds, "(builtin(len)(var(wrapped)) == §#0)"), "R17.6", "client.(*Broker).scan: the whole batch is returned only when every file was hashed", e.Pos(fn.Pos()),
+						"the unfiltered batch is returned although some files have no hash", 1, conds...)
+				}
+			}
+		}
+		Instrs(fn, func(in ssa.Instruction) {
+			if rt, ok := in.(*ssa.Return); ok && len(rt.Results) == 1 && e.Canon(rt.Results[0]) != "nil" && rt.Block().Comment != "recover" {
+				walk(rt.Results[0], nil, nil)
+			}
+		})
+		r.Min("R17.6", "sources of the scan result", n, 2)
+	}
+
 	// ---------------------------------------------------------------- R17.5
 	r.Rule("R17.5", "changed files are dropped, not mixed: before a failed payload is sent again every part's file is re-checked with Store.Sync and removed from the payload when it changed, errored or left the cache; the retrier skips a file whose Sync reports a change")
 	if fn := needFn(e, r, "R17.5", "client.(*Broker).startSend"); fn != nil {
